@@ -120,6 +120,7 @@ struct devstats {
     uint64_t seeks = 0;
     uint64_t seeks_beyond = 0; // seeks to a position outside [0,len]
     uint64_t is_ops = 0;       // std::istream-level operations (wrapped peek/get/readsome/read/seekg)
+    uint64_t work = 0;         // sum over read calls of (bytes that could be delivered + 1): a huge request at EOF costs 1
 };
 struct budget_t {
     bool armed = false;
@@ -153,10 +154,10 @@ inline void check_budget() {
         vh::fatal_monitor(vh::cat("hang.eof-spin.", b.dev, ".", b.entry),
                           vh::cat(b.fmt, " via ", b.dev, " ", b.entry, ": ", b.st->zero_eof, " reads returned nothing at EOF (budget ", b.max_eof,
                                   "; input ", b.len, " bytes, declared pixels ", b.declared, "); bytes requested so far ", b.st->bytes_req));
-    if (b.st->bytes_req > b.max_bytes)
+    if (b.st->work > b.max_bytes)
         vh::fatal_monitor(vh::cat("hang.bytes-budget.", b.dev, ".", b.entry),
-                          vh::cat(b.fmt, " via ", b.dev, " ", b.entry, ": ", b.st->bytes_req, " bytes requested (budget ", b.max_bytes,
-                                  "; input ", b.len, " bytes, declared pixels ", b.declared, ")"));
+                          vh::cat(b.fmt, " via ", b.dev, " ", b.entry, ": read calls moved ", b.st->work, " bytes+calls (budget ", b.max_bytes,
+                                  "; input ", b.len, " bytes, declared pixels ", b.declared, "; ", b.st->bytes_req, " bytes requested in ", b.st->calls, " calls)"));
 }
 
 // ---------------------------------------------------------------------------------------------
@@ -172,9 +173,10 @@ struct in_streambuf : std::streambuf {
     int_type underflow() override { ++st.calls; ++st.zero_eof; check_budget(); return traits_type::eof(); }
     std::streamsize xsgetn(char* s, std::streamsize n) override {
         ++st.calls; st.bytes_req += (uint64_t)(n > 0 ? n : 0);
-        check_budget();
         std::streamsize avail = egptr() - gptr();
         std::streamsize k = n < avail ? n : avail;
+        st.work += (uint64_t)(k > 0 ? k : 0) + 1;
+        check_budget();
         if (k > 0) { memcpy(s, gptr(), (size_t)k); gbump((int)k); }
         if (k <= 0 && n > 0) { ++st.zero_eof; check_budget(); }
         st.bytes_ret += (uint64_t)(k > 0 ? k : 0);
@@ -203,8 +205,9 @@ struct cookie_t {
 inline ssize_t cookie_read(void* c, char* buf, size_t n) {
     cookie_t* k = (cookie_t*)c;
     ++k->st->calls; k->st->bytes_req += n;
-    check_budget();
     size_t len = k->bytes->size();
+    k->st->work += (k->pos < len ? (n < len - k->pos ? n : len - k->pos) : 0) + 1;
+    check_budget();
     if (k->pos >= len) { ++k->st->zero_eof; check_budget(); return 0; }
     size_t m = n < len - k->pos ? n : len - k->pos;
     memcpy(buf, k->bytes->data() + k->pos, m);
@@ -273,7 +276,7 @@ int __wrap__ZNSi4peekEv(std::istream* s) {
 int __wrap__ZNSi3getEv(std::istream* s) {
     c11::budget_t& b = c11::budget();
     int r = __real__ZNSi3getEv(s);
-    if (b.armed && b.st) { ++b.st->is_ops; ++b.st->bytes_req; if (r == EOF) { ++b.st->zero_eof; } c11::check_budget(); }
+    if (b.armed && b.st) { ++b.st->is_ops; ++b.st->bytes_req; b.st->work += 2; if (r == EOF) { ++b.st->zero_eof; } c11::check_budget(); }
     return r;
 }
 std::streamsize __wrap__ZNSi8readsomeEPcl(std::istream* s, char* p, std::streamsize n) {
@@ -456,7 +459,7 @@ struct field_t { const char* name; unsigned off; unsigned width; bool big_endian
 // duplicate / insert, biased towards the header
 inline std::string mutate_random(std::string b, vh::rng& r, size_t header_len) {
     static const uint32_t interesting[] = { 0, 1, 2, 3, 4, 7, 8, 15, 16, 24, 31, 32, 33, 64, 127, 128, 129, 255, 256, 257, 0x7FFF, 0x8000, 0xFFFF,
-                                            0x10000, 0x7FFFFFFF, 0x80000000u, 0xFFFFFFFFu, 0xFFFFFFFEu, 0x00FFFFFF, 0x01000000 };
+                                            0x10000, 0x7FFFFFFF, 0x80000000u, 0xFFFFFFFFu, 0xFFFFFFFEu };
     int n = 1 + (int)r.below(4);
     if (r.below(8) == 0) n += (int)r.below(12);
     for (int k = 0; k < n; ++k) {
